@@ -29,7 +29,7 @@ const c04Good = `[{"@id":"http://ex.org/n","@type":["http://ex.org/T"],"http://e
 // every validating entry point must answer with an error and no report.
 func c04(tier string) {
 	ctx := lib.NewCtx("C04", tier)
-	ctx.Rule = "texts derived from valid JSON-LD documents (generated graphs and repository fixtures): empty/whitespace, proper prefixes at evenly spread cut points, UTF-16 LE/BE with/without BOM, Latin-1 bytes, single-byte corruptions, non-JSON sources (YAML/RAML/XML/profile text), and JSON documents aimed at JSON-LD error conditions (keyword type confusion); " +
+	ctx.Rule = "texts derived from valid JSON-LD documents (generated graphs and repository fixtures): empty/whitespace, proper prefixes and proper suffixes at evenly spread cut points, a stray closing delimiter or separator in front of a whole document, UTF-16 LE/BE with/without BOM, Latin-1 bytes, single-byte corruptions, non-JSON sources (YAML/RAML/XML/profile text), and JSON documents aimed at JSON-LD error conditions (keyword type confusion); " +
 		"class membership is decided by the harness (encoding/json cannot read a value; json-gold expansion fails), texts outside the class are counted and not judged; each judged text goes through pkg.Validate, ValidateWithConfiguration, CompileProfile+ValidateCompiled, ValidateCompiledWithConfiguration (same text repeatedly, good documents in between) and a sample through `acv validate`; " +
 		"non-trivial & distinct = distinct judged text"
 	ctx.Assumptions = []string{
